@@ -114,7 +114,12 @@ struct Spec {
         for (size_t i = 0; i < N; ++i) { pp[i] = exp(s[i] * y[i] - m); pm[i] = exp(-s[i] * y[i] - m); S += pp[i] + pm[i]; }
         v = m + log(S) - log(2.0 * static_cast<double>(n));
         for (size_t i = 0; i < N; ++i) { pp[i] /= S; pm[i] /= S; p1[i] = s[i] * (pp[i] - pm[i]); }
-        for (size_t i = 0; i < N; ++i) for (size_t j = 0; j < N; ++j) HY[i * N + j] = (i == j ? s[i] * s[i] * (pp[i] + pm[i]) : 0.0) - p1[i] * p1[j];
+        // diagonal without cancellation: q(1-q) + 4 p+ p-  with q = p+ + p-  and  1-q = sum of the other q's
+        for (size_t i = 0; i < N; ++i) for (size_t j = 0; j < N; ++j) {
+          if (i != j) { HY[i * N + j] = -p1[i] * p1[j]; continue; }
+          double q = pp[i] + pm[i], rest = 0; for (size_t l = 0; l < N; ++l) if (l != i) rest += pp[l] + pm[l];
+          HY[i * N + i] = s[i] * s[i] * (q * rest + 4 * pp[i] * pm[i]);
+        }
       }
     }
     if (g) { g->assign(N, 0.0); for (size_t a = 0; a < N; ++a) { double s = 0; for (size_t i = 0; i < N; ++i) s += Q[a * N + i] * p1[i]; (*g)[a] = s; } }
@@ -316,9 +321,13 @@ string showCase(const Case& k) {
 
 // ------------------------------------------------------------------ running a case
 struct Marker : public OptimizationListener {
-  const Record* rec = nullptr; vector<size_t> marks; vector<unsigned> counter; size_t atInit = 0;
-  void optimizationInitializationPerformed(const OptimizationEvent&) override { atInit = rec->count(); }
-  void optimizationStepPerformed(const OptimizationEvent& e) override { marks.push_back(rec->count()); counter.push_back(e.getOptimizer()->getNumberOfEvaluations()); }
+  const Record* rec = nullptr; vector<size_t> marks; vector<unsigned> counter; size_t atInit = 0, cur = 0;
+  vector<pair<size_t, size_t>> span;  // evaluations [first, second) of every step (init() may be called again: meta)
+  void optimizationInitializationPerformed(const OptimizationEvent&) override { atInit = cur = rec->count(); }
+  void optimizationStepPerformed(const OptimizationEvent& e) override {
+    marks.push_back(rec->count()); counter.push_back(e.getOptimizer()->getNumberOfEvaluations());
+    span.push_back({cur, rec->count()}); cur = rec->count();
+  }
   bool listenerModifiesParameters() const override { return false; }
 };
 
@@ -330,7 +339,16 @@ struct Out {
   size_t lastStepEvals = 0, steps = 0; vector<unsigned> counter;  // counter[k]: getNumberOfEvaluations() when step k+1 was done
   shared_ptr<Obj> obj;
   double minSeen = INF;
+  bool bfgsStepIncrease = false;  // some BFGS iteration ended above the value it started from (see stepIncrease)
 };
+
+// Footprint of the line-search defect: BfgsMultiDimensions::doStep evaluates the objective first at the point the
+// step starts from (backtracking initialisation, lambda = 0) and last at the point it moves to. A backtracking
+// search either finds a sufficient decrease or keeps lambda = 0, so the last value can never exceed the first.
+bool stepIncrease(const Record& r, const vector<pair<size_t, size_t>>& span) {
+  for (auto& s : span) if (s.second > s.first + 1 && r.fs[s.second - 1] > r.fs[s.first]) return true;
+  return false;
+}
 
 shared_ptr<OptimizerInterface> makeOpt(int kind, shared_ptr<Obj> obj) {
   switch (kind) {
@@ -360,6 +378,10 @@ void excludeBeforeRun(vf::Ctx& c, const Case& k) {
   // MetaOptimizer with n >= 2 progressive steps derives the intermediate tolerances from log10(f(start)): NaN (or
   // -inf) for f(start) <= 0, the sub-optimisers then never see "tolerance reached" and run to their own caps (10^6)
   if (k.opt == META && k.metaN >= 2 && k.spec.eval(k.start) <= 0) c.excludeIfKnown("C10-meta-log10-initial-value");
+  // lineSearch moves to the last point the backtracking tried, also when the backtracking gave up: BFGS then ends its
+  // step with a function increase. Inside the meta-optimiser this repeats in every round, the function-value stop
+  // test is never met and the run lasts until the default cap of 10^6 (about a minute of CPU): not run.
+  if (k.opt == META && usesKind(k, BFGS) && k.cap == 0) c.excludeIfKnown("C10-linesearch-takes-rejected-step");
 }
 
 Out runCase1(vf::Ctx& c, const Case& k);
@@ -404,13 +426,15 @@ Out runCase1(vf::Ctx& c, const Case& k) {
       finish(pl); o.ret = o.fv = o.fRep;
       return o;
     }
-    shared_ptr<OptimizerInterface> opt;
+    shared_ptr<OptimizerInterface> opt; vector<shared_ptr<Marker>> bfgsMarkers;
     if (k.opt == META) {
       auto desc = make_unique<MetaOptimizerInfos>();
       for (auto& s : k.subs) {
         vector<string> names; for (int v : s.vars) names.push_back(nm(v));
         unsigned short der = (s.kind == SNEWTON || s.kind == NEWTON1D) ? 2 : (s.kind == BFGS || s.kind == CG) ? 1 : 0;
-        desc->addOptimizer(ONAME[s.kind], makeOpt(s.kind, o.obj), names, der, s.full ? MetaOptimizerInfos::IT_TYPE_FULL : MetaOptimizerInfos::IT_TYPE_STEP);
+        auto so = makeOpt(s.kind, o.obj);
+        if (s.kind == BFGS) { auto m = make_shared<Marker>(); m->rec = &o.obj->rec; so->addOptimizationListener(m); bfgsMarkers.push_back(m); }
+        desc->addOptimizer(ONAME[s.kind], so, names, der, s.full ? MetaOptimizerInfos::IT_TYPE_FULL : MetaOptimizerInfos::IT_TYPE_STEP);
       }
       opt = make_shared<MetaOptimizer>(o.obj, std::move(desc), k.metaN);
     } else opt = makeOpt(k.opt, o.obj);
@@ -426,6 +450,7 @@ Out runCase1(vf::Ctx& c, const Case& k) {
     if (k.opt == GOLDEN) dynamic_pointer_cast<GoldenSectionSearch>(opt)->setInitialInterval(k.xinf, k.xsup);
     auto marker = make_shared<Marker>(); marker->rec = &o.obj->rec;
     opt->addOptimizationListener(marker);
+    if (k.opt == BFGS) bfgsMarkers.push_back(marker);
     // the budget actually in force (default caps are set by the constructors)
     opt->init(pl);
     o.ret = opt->optimize();
@@ -434,6 +459,7 @@ Out runCase1(vf::Ctx& c, const Case& k) {
     o.steps = marker->marks.size(); o.counter = marker->counter;
     if (o.steps >= 1) o.lastStepEvals = marker->marks.back() - (o.steps >= 2 ? marker->marks[o.steps - 2] : marker->atInit);
     finish(opt->getParameters());
+    for (auto& m : bfgsMarkers) if (stepIncrease(o.obj->rec, m->span)) o.bfgsStepIncrease = true;
   } catch (ConstraintException& e) {
     o.constraintExc = true; o.exc = string("ConstraintException: ") + e.what();
   } catch (std::exception& e) {
@@ -490,6 +516,8 @@ LAW(Lb_descent, RC, 900, 40000, 96, NTR, 20, false) {
   if (acceptedAbort(c, k, o)) return;
   // golden section reports the point it evaluated last, not the best one it holds
   if (k.opt == GOLDEN && o.fRep > o.minSeen) c.excludeIfKnown("C10-golden-reports-last");
+  // lineSearch takes the last point the backtracking tried even when the backtracking gave up
+  if (o.bfgsStepIncrease || (k.opt == LINESEARCH && o.fRep > o.fStart)) c.excludeIfKnown("C10-linesearch-takes-rejected-step");
   CHECK(o.fRep <= o.fStart + 1e-12 * (1 + std::abs(o.fStart)),
         "ended worse than it started: f(start)=" << vf::dec(o.fStart) << " f(reported)=" << vf::dec(o.fRep) << " reported=" << showVec(o.rep) << " (minimum " << vf::dec(k.spec.d) << ")");
 }
@@ -543,7 +571,7 @@ LAW(Ld_budget, RC, 900, 40000, 96, "a small cap that is hit", 20, false) {
 // ------------------------------------------------------------------ (e) convergence on strictly convex quadratics
 namespace {
 // per-optimiser constants (see the header comment)
-const double KOPT[NOPT] = {1e9, 1e9, 1e9, 1e9, 1e9, 1e9, 1e9, 1e9, 1e9, 1e9, 1e9, 1e9};
+const double KOPT[NOPT] = {3, 3, 3, 3, 3, 3, 3, 3, 3, 3, 3, 3};
 }
 LAW(Le_convergence, RC, 900, 40000, 96, "dim >= 2 or start within 1e-6 of the optimum", 20, false) {
   Filter f; f.quadOnly = true; f.allowSmallCap = false; f.needCons = -1;
@@ -556,6 +584,7 @@ LAW(Le_convergence, RC, 900, 40000, 96, "dim >= 2 or start within 1e-6 of the op
   Out o = runCase(c, k);
   ntRule(c, k, o);
   if (acceptedAbort(c, k, o)) return;
+  if (o.bfgsStepIncrease) c.excludeIfKnown("C10-linesearch-takes-rejected-step");  // BFGS stops at the first function increase
   double err = 0; for (size_t i = 0; i < o.rep.size(); ++i) err = max(err, std::abs(o.rep[i] - k.spec.c[i]));
   double scale = sqrt(k.tol * max(1.0, std::abs(k.spec.d)) * k.spec.cond() / k.spec.lmin());
   double ratio = max(0.0, err - 1e-9) / scale;
